@@ -41,7 +41,13 @@ def judgeFmt (which : String) (text : List Char) (sp : Bool) (ts : Nat) (impl : 
     let newText := match ans with
       | none => text
       | some (_, t) => t
-    match LexSpec.lex text with
+    -- the independent lexical specification; for texts it declines (malformed literals) the lexer MODEL,
+    -- which the LEX correspondence ties to the implementation, still compares the two token sequences of C09
+    let lexAny : List Char → Option (List Token) := fun t =>
+      match LexSpec.lex t with
+      | some ts => some ts
+      | none => if which == "09" then (match lex t with | .ok ts => some ts | .error _ => none) else none
+    match lexAny text with
     | none => "n/a"
     | some t0 =>
       match which with
@@ -52,7 +58,7 @@ def judgeFmt (which : String) (text : List Char) (sp : Bool) (ts : Nat) (impl : 
            if r != s!"0:0-{e.line}:{e.col}" then s!"bad:C09:edit-range-{r}-is-not-the-whole-document-0:0-{e.line}:{e.col}" else ""
          | none => "") |> fun pre =>
         if pre != "" then pre else
-        match LexSpec.lex newText with
+        match lexAny newText with
         | none => "bad:C09:formatted-text-is-not-lexically-valid"
         | some t1 =>
           if nonComment t0 != nonComment t1 then
